@@ -24,7 +24,7 @@ INFO = {
                    "removals); init_tree_with_leaves = fresh tree of the same depth then set_leaves_from(0, .); atomic_operation(index, "
                    "leaves, indices) = override_range(index, decoded leaves, decoded indices), nothing masked or reordered. R08-4 (shared "
                    "with C06 R06-3/R06-8): after a batch write the in-memory trees recompute every parent of the written range on every "
-                   "level up to the root, unconditionally (no 'unchanged' shortcut), so the root reflects the whole batch.",
+                   "level up to the root, unconditionally (no 'unchanged' shortcut), so the root reflects the whole batch. R08-8 (shared, C06 R06-11): every record of a batch, default-valued ones included, reaches the store.",
     "not_decided": "the resulting root and leaf values as numbers (C06), pmtree's own range write",
     "assumptions": ["structure invariants of the trees on entry: len(cached_leaves_indices) = capacity, next_index <= capacity, depth < 32",
                     "buffers are not shrunk inside loops (a loop-carried Vec keeps at least its initial length)"],
